@@ -1163,7 +1163,12 @@ search:
 		}
 	}
 	if len(g.notes) > 0 {
-		rr.Note = strings.TrimSpace(rr.Note + " " + strings.Join(g.notes, "; "))
+		// part of an input could not be built (an interface-typed field, an unexported
+		// field of another package): the run would start from a state the model does not
+		// describe, and a panic or a difference would mean nothing
+		rr.Note = strings.TrimSpace(rr.Note + " inputs only partly constructible, not run: " + strings.Join(g.notes, "; "))
+		rr.TestSource = ""
+		return rr
 	}
 	runReplay(P.Repo, rr)
 	judgeReplay(rr, ri.ExpectPanic, o.Kind)
